@@ -17,4 +17,17 @@ PROPS = {
         "explanation": "$redirect is read by IsHigherPriority but cannot be set from rule text on this tree; the theorems cover it, "
                        "the correspondence cannot.",
     },
+    "C08": {
+        "families": [
+            fam("c08.negates", 2500, 40000),
+            fam("c08.removebad", 2500, 40000),
+            fam("c08.engine", 1500, 20000),
+        ],
+        "defects": ["D7"],
+        "rule": "c08.negates: (x$badfilter, x), near-twins differing in exactly one modifier value (incl. $denyallow, $dnstype, $dnsrewrite, "
+                "$client/$ctag order), reversed and random pairs through VerifNegatesBadfilter; c08.removebad: base lists + 1-4 twin pairs at "
+                "random positions + near-twins through VerifRemoveBadfilterRules (survivor indexes, in order); c08.engine: verdict(L+twins) == "
+                "verdict(L) through NetworkEngine.Match and DNSEngine.MatchRequest, rules split over two lists at a random point; "
+                "distinct by hash of the op input; non-trivial when the answer is not F/()",
+    },
 }
